@@ -496,8 +496,9 @@ class ContDomain(Domain):
             c_ = as_lin(cnt) if isinstance(cnt, (Lin, int)) else None
             if c_ is None: return None
             return f_.base, f_.off, f_.off + c_
-        def emit(kind, r, src):
-            self.c_event(st, n, 'range', kind, ('raw', r[0]), r[1], r[2], src)
+        def emit(kind, r, src, pair=False):
+            # an iterator-pair algorithm walks `first != last`: a reversed range does not stop (unlike an `i < end` loop)
+            self.c_event(st, n, 'range', kind, ('raw', r[0]), r[1], r[2], src, 'iterpair' if pair else 'counted')
         def src_of(first, r):
             s_ = P(first)
             if s_ is None: return None
@@ -510,22 +511,22 @@ class ContDomain(Domain):
         elif q in ('std::uninitialized_copy', 'std::uninitialized_move', 'std::copy', 'std::move') and len(A) == 3:
             s_ = rng(A[0], last=A[1]); d_ = P(A[2])
             if s_ and d_ is not None:
-                r = (d_.base, d_.off, d_.off + (s_[2] - s_[1])); emit('construct' if 'uninit' in q else 'assign', r, ('raw', s_[0], s_[1], s_[2])); res = Ptr(r[0], r[2])
+                r = (d_.base, d_.off, d_.off + (s_[2] - s_[1])); emit('construct' if 'uninit' in q else 'assign', r, ('raw', s_[0], s_[1], s_[2]), pair=True); res = Ptr(r[0], r[2])
         elif q in ('std::uninitialized_fill_n', 'std::fill_n') and len(A) == 3:
             r = rng(A[0], cnt=A[1])
             if r: emit('construct' if 'uninit' in q else 'assign', r, valsrc(A[2])); res = Ptr(r[0], r[2])
         elif q in ('std::uninitialized_fill', 'std::fill') and len(A) == 3:
             r = rng(A[0], last=A[1])
-            if r: emit('construct' if 'uninit' in q else 'assign', r, valsrc(A[2])); res = Sym('void')
+            if r: emit('construct' if 'uninit' in q else 'assign', r, valsrc(A[2]), pair=True); res = Sym('void')
         elif q in ('std::uninitialized_value_construct', 'std::uninitialized_default_construct') and len(A) == 2:
             r = rng(A[0], last=A[1])
-            if r: emit('construct', r, ('value', 'T()')); res = Sym('void')
+            if r: emit('construct', r, ('value', 'T()'), pair=True); res = Sym('void')
         elif q in ('std::uninitialized_value_construct_n', 'std::uninitialized_default_construct_n') and len(A) == 2:
             r = rng(A[0], cnt=A[1])
             if r: emit('construct', r, ('value', 'T()')); res = Ptr(r[0], r[2])
         elif q == 'std::destroy' and len(A) == 2:
             r = rng(A[0], last=A[1])
-            if r: emit('destroy', r, None); res = Sym('void')
+            if r: emit('destroy', r, None, pair=True); res = Sym('void')
         elif q == 'std::destroy_n' and len(A) == 2:
             r = rng(A[0], cnt=A[1])
             if r: emit('destroy', r, None); res = Ptr(r[0], r[2])
